@@ -264,7 +264,35 @@ def _r7(ctx, pkg):
     ok = False
     found = ""
     regex_key = None
-    is_tok = lambda x, i: x[0] == "item" and x[2] == i and x[1][0] == "meth" and x[1][2] == "split" and not x[1][3]
+    def tok_index(x):
+        """(the split record, i) when x is the i-th blank-separated token of a record -- `a, b, *_ = line.split()` or
+        `line.split()[i]`, with or without an explicit `None` separator / maxsplit -- else None"""
+        base = i = None
+        if x[0] == "item" and isinstance(x[2], int):
+            base, i = x[1], x[2]
+        elif x[0] == "sub" and x[2][0] == "const" and type(x[2][1]) is int:
+            base, i = x[1], x[2][1]
+        if base is not None and base[0] == "meth" and base[2] == "split" and (not base[3] or base[3][0] == ("const", None)) \
+                and not any(kw != "maxsplit" for kw, _ in base[4]) and i >= 0:
+            return base, i
+        return None
+    is_tok = lambda x, i: tok_index(x) is not None and tok_index(x)[1] == i
+
+    def evidence(k, val):
+        """what is positively wrong with a stored (key, value) pair, or None"""
+        tk = tok_index(k)
+        if tk is not None and tk[1] != 0:
+            return f"the key is token {tk[1]} of the record, not its first token"
+        if tk is None and any(isinstance(y, tuple) and y and tok_index(y) is not None and tok_index(y)[1] == 0 for y in walk(k) if isinstance(y, tuple) and len(y) == 3):
+            return "the key is a transformation of the first token (characters stripped / replaced): neutral and anion rows collapse"
+        tv = [tok_index(y) for y in walk(val) if isinstance(y, tuple) and len(y) == 3 and y[0] in ("item", "sub")]
+        tv = [t for t in tv if t is not None]
+        if tv and all(t[1] != 1 for t in tv):
+            return f"the value is read from token {tv[0][1]} of the record, not from its second token"
+        if tv and not (val[0] == "call" and val[1] == ("global", "float") and len(val[2]) == 1 and tok_index(val[2][0]) is not None):
+            return "the second token is not stored as float(token)"
+        return None
+    why = None
     if acc is None and len(ret) == 1 and ret[0][0] == "comp" and ret[0][1] == "dict":
         # the table as one dict comprehension
         from ..valueflow import expand_bvals
@@ -272,7 +300,9 @@ def _r7(ctx, pkg):
         if kv[0] == "tuple" and len(kv[1]) == 2:
             k, val = kv[1]
             found = f"{show(k)[:70]} : {show(val)[:50]}"
-            ok = is_tok(k, 0) and val[0] == "call" and val[1] == ("global", "float") and is_tok(val[2][0], 1) and k[1] == val[2][0][1]
+            ok = is_tok(k, 0) and val[0] == "call" and val[1] == ("global", "float") and is_tok(val[2][0], 1) and tok_index(k)[0] == tok_index(val[2][0])[0]
+            if not ok:
+                why = why or evidence(k, val)
             if ok:
                 ctx.check(True, "R7", "built-in table:key", (CHEMDATA, fn.lineno), "key = first token of the record, value = float(second token)")
                 return
@@ -286,9 +316,11 @@ def _r7(ctx, pkg):
         if kv:
             k, val = kv
             found = f"{show(k)[:70]} : {show(val)[:50]}"
-            ok = is_tok(k, 0) and val[0] == "call" and val[1] == ("global", "float") and is_tok(val[2][0], 1) and k[1] == val[2][0][1]
+            ok = is_tok(k, 0) and val[0] == "call" and val[1] == ("global", "float") and is_tok(val[2][0], 1) and tok_index(k)[0] == tok_index(val[2][0])[0]
             if not ok and k[0] in ("sub", "meth") and "match" in show(k):
                 regex_key = k
+            if not ok:
+                why = why or evidence(k, val)
     if not ok and regex_key is not None:
         # the key comes out of a regular expression: its group must admit the charge signs
         import re._parser as sp
@@ -330,9 +362,13 @@ def _r7(ctx, pkg):
                   "stored under the neutral's name and overwrite it (OH 2850 K -> 1260 K): every rate of that ice species uses the anion's binding energy",
                   expected="key = first blank-separated token of the record", found=found)
         return
-    ctx.check(ok, "R7", "built-in table:key", (CHEMDATA, writes[0].line if writes else fn.lineno),
-              "key = first token of the record, value = float(second token)" if ok else "the record is not stored as {first token: float(second token)}",
-              expected="elem, eb, *_ = line.split(); table[elem] = float(eb)", found=found)
+    if ok or why:
+        ctx.check(ok, "R7", "built-in table:key", (CHEMDATA, writes[0].line if writes else fn.lineno),
+                  "key = first token of the record, value = float(second token)" if ok else f"the record is not stored as {{first token: float(second token)}}: {why}",
+                  expected="elem, eb, *_ = line.split(); table[elem] = float(eb)", found=found)
+    else:
+        ctx.unrec("R7", "built-in table:key", (CHEMDATA, writes[0].line if writes else fn.lineno),
+                  f"cannot see how the records of the built-in table are turned into (key, value) pairs: {found or show(ret[0])[:100] if ret else 'no return'}")
 
 
 CONST_C = "naunet/templates/base/cpp/src/naunet_constants.cpp.j2"
@@ -749,6 +785,7 @@ BENIGN = [
     {"name": "super-call-explicit-base", "file": RR, "old": "    def rate_h2_desorption(self, reac: Reaction) -> str:\n        super().rate_h2_desorption(reac)\n", "new": "    def rate_h2_desorption(self, reac: Reaction) -> str:\n        Grain.rate_h2_desorption(self, reac)\n"},
     {"name": "create-species-if-else", "file": "naunet/component.py", "old": '        if isinstance(species_name, Species):\n            return species_name\n\n        if species_name and species_name not in Species.known_pseudoelements():\n            return Species(species_name, **kwargs)\n\n        return None\n', "new": "        if not isinstance(species_name, Species):\n            if species_name and species_name not in Species.known_pseudoelements():\n                return Species(species_name, **kwargs)\n            return None\n        return species_name\n"},
     {"name": "eb-const-name-through-set", "file": CONST_C, "old": "double eb_{{ s.alias }}", "new": "{% set ice = s.alias -%}\ndouble eb_{{ ice }}", "count": 1},
+    {"name": "binding-table-tokens-by-index", "file": "naunet/chemistrydata/__init__.py", "old": "                elem, eb, *other = line.split()\n                binding_energy.update({elem: float(eb)})", "new": "                parts = line.split(None, 2)\n                binding_energy[parts[0]] = float(parts[1])"},
 ]
 
 
